@@ -33,6 +33,7 @@ TABLE = {
             {"driver": "batch", "required_clauses": ["callback-legitimacy", "dispatch-owed"]},
             {"driver": "disable", "required_clauses": ["callback-legitimacy"]},
             {"driver": "pairs", "required_clauses": ["callback-legitimacy", "dispatch-owed", "timer-fire"]},
+            {"driver": "slot-wrap", "required_clauses": ["slot-wrap"], "shards": 1, "replayable": False},
             {"driver": "composite", "required_clauses": ["scripted-callback", "post-action"]},
             {"driver": "lifecycle", "required_clauses": ["scripted-callback"]},
         ],
@@ -69,6 +70,7 @@ TABLE = {
         "drivers": [
             {"driver": "removal", "required_clauses": ["release", "stale-token", "callback-legitimacy", "epoll-table"]},
             {"driver": "reuse", "required_clauses": ["release", "stale-token"]},
+            {"driver": "slot-wrap", "required_clauses": ["slot-wrap"], "shards": 1, "replayable": False},
         ],
     },
     "C07": {
@@ -121,6 +123,7 @@ TABLE = {
         "drivers": [
             {"driver": "idle", "required_clauses": ["idle-run", "idles", "scripted-callback"]},
             {"driver": "idle-burst", "required_clauses": ["idle-burst"], "shards": 1, "replayable": False},
+            {"driver": "block-on-idle", "required_clauses": ["block-on-idle"], "shards": 1, "replayable": False},
         ],
     },
     "C14": {
@@ -128,6 +131,7 @@ TABLE = {
         "drivers": [
             {"driver": "lifecycle", "required_clauses": ["lifecycle", "scripted-callback", "registration-counters"]},
             {"driver": "faults", "required_clauses": ["lifecycle", "failed-insert", "failed-registration-call"]},
+            {"driver": "postaction", "required_clauses": ["lifecycle", "post-action"]},
         ],
     },
     "C15": {
@@ -138,7 +142,7 @@ TABLE = {
         "drivers": [
             {"driver": "faults", "required_clauses": ["failed-insert", "failed-registration-call", "dispatch-end", "scripted-callback", "insert-retried", "timer-child-armed"]},
             {"driver": "postaction", "required_clauses": ["post-action"]},
-            {"driver": "epoll", "required_clauses": ["duplicate-fd", "epoll-table"]},
+            {"driver": "epoll", "required_clauses": ["duplicate-fd", "bad-fd", "epoll-table"]},
         ],
     },
     "C16": {
